@@ -40,6 +40,12 @@ props=[
  {"id":"C05","level":"proof","funcs":IPFIX_JSON+V9_JSON+V5_JSON+WORKERS+["ipfix.Decoder.Decode","netflow.v9.Decoder.Decode","netflow.v5.Decoder.Decode"],"grounds":["jsonshape"],
   "assumptions":A_COMMON+["the JSON recogniser inside govc (json.go) is the definition of 'syntactically valid JSON'; literal bare tokens (null) are not grammar-checked","strconv.FormatInt/FormatUint/FormatBool produce a JSON number/literal whose value is the argument, strconv.FormatFloat produces a JSON number for finite values, net.IP.String / net.HardwareAddr.String / hex.EncodeToString produce JSON-safe text, json.Marshal of a string yields a complete, correctly escaped string literal (assumed library contracts)","sFlow: encoding/json.Marshal returns valid JSON or an error (trusted); the check on our side is that every struct type reachable from the datagram is encodable (ground obligations)","faithfulness is decided per slot (the value written under each literal key, and the V value per dynamic type); numbers are compared as mathematical integers through numval"],
   "note":"Ghost pushdown JSON recogniser state on every bytes.Buffer: each literal write is run through the recogniser character by character and must be legal (json.legal), each dynamic write must be a number / JSON-safe string content / complete string literal in the right position (json.payload), the value written under each literal key must equal the decoded field (json.slot), and JSONMarshal must end in the document-complete state."},
+ {"id":"C10","level":"other","funcs":IPFIX_CACHE+V9_CACHE+["ipfix.MemCache.Dump","netflow.v9.MemCache.Dump","ipfix.MemCache.allSetIds","ipfix.IRPC.Get","ipfix.NewRPC"],"grounds":["guarded"],
+  "assumptions":A_COMMON+["A8(i) lock-invariant rule (not mechanised): if every access to a location happens inside a critical section of the lock that protects it, the location is free of data races and each critical section is atomic","deadlock freedom: every critical section holds a single lock (lock.order obligations), Dump acquires all shard locks in slice order and nothing else acquires two","stored templates are values; their slices are not written after insert (no element assignment to FieldSpecifiers anywhere: checked by the frame obligations of the functions under contract)","'no data race' is claimed for the template caches only, not for i.stop, ipfixMirrorEnabled or the stats counters"],
+  "note":"Mechanised: lock.held obligations at every read/write of TemplatesShard.Templates (both packages) and at json.Marshal's reflective walk in Dump, lock.order and released-at-return obligations, and the completeness check that every function touching the map is under these contracts. Not mechanised: the step from per-critical-section proofs to all interleavings (A8)."},
+ {"id":"C11","level":"proof","funcs":IPFIX_CACHE+V9_CACHE+["ipfix.MemCache.Dump","netflow.v9.MemCache.Dump"],"grounds":["cachetypes"],
+  "assumptions":A_COMMON+["json.Unmarshal may leave any value of the target type behind, whatever it returns (havoc contract: covers prefixes left by a crash, corruptions and hand edits)","round trip: encoding/json round-trips values whose types have only exported integer/slice/struct/pointer fields and integer-keyed maps (trusted); the type-shape conditions are ground obligations on memCacheDisk","a strict prefix of the saved JSON document is rejected by json.Unmarshal (trusted), after which GetCache returns the fresh empty cache"],
+  "note":"GetCache is proved to return a cache that satisfies the representation invariant every lookup needs (32 non-nil shards with non-nil maps) for every file content, and to return either the decoded cache or a fresh empty one; valid() is proved to imply the invariant."},
  {"id":"C18","level":"proof","funcs":["sflow.SFDecoder.*","sflow.NewSFDecoder","vflow.SFlow.sFlowWorker"],
   "assumptions":A_COMMON+["the relational reading (same output as without the filter) is a written lemma over the per-iteration contract of SFDecode"],
   "note":"isFilterMatch is proved to be membership in the filter list; SFDecode's loop skips a matching sample by its declared length and treats every other sample without consulting the filter."},
